@@ -91,6 +91,9 @@ func (e *Exec) segsOf(s *StrV) []Seg {
 type StrIte struct {
 	C    *Term
 	A, B Val // StrV / StrIte
+	// Canon: a chain StrIte(c1,t1,StrIte(c2,t2,...tn)) over distinct concrete texts (sorted) whose
+	// conditions are mutually exclusive; merges of such values stay linear in the number of texts
+	Canon bool
 }
 
 // Agg is an immutable struct/array value. Elems[i] == nil means zero value.
@@ -449,6 +452,9 @@ func (e *Exec) mergeVal(c *Term, a, b Val) Val {
 				}
 			}
 		}
+		if m := e.canonStrIte(c, a, b); m != nil {
+			return m
+		}
 		return &StrIte{C: c, A: a, B: b}
 	case *SliceV:
 		y, ok := b.(*SliceV)
@@ -465,6 +471,11 @@ func (e *Exec) mergeVal(c *Term, a, b Val) Val {
 				offT = e.S.Ite(c, xo, yo)
 			}
 			return &SliceV{Obj: x.Obj, Path: x.Path, Off: x.Off, OffT: offT, Cap: x.Cap, Elem: x.Elem, Len: e.S.Ite(c, x.Len, y.Len)}
+		}
+		if ok {
+			if m := e.mergeSlices(c, x, y); m != nil {
+				return m
+			}
 		}
 		return &Poison{Why: "merge of different slices"}
 	case TupleV:
@@ -738,4 +749,138 @@ func sortMapKeys(md *MapData, e *Exec) []int {
 		return ks[idx[a]] < ks[idx[b]]
 	})
 	return idx
+}
+
+
+// mergeSlices: two slices over different whole backing arrays (e.g. before / after an append that
+// reallocated) become one slice over a fresh array whose elements are the conditional values. The
+// copy gives up aliasing with the old arrays, which is exact for slices that are only appended to
+// and read (the case in the code under test); slices into the middle of an array are not merged.
+func (e *Exec) mergeSlices(c *Term, x, y *SliceV) Val {
+	if e.mergeN == nil || x.OffT != nil || y.OffT != nil || x.Off != 0 || y.Off != 0 || len(x.Path) != 0 || len(y.Path) != 0 {
+		return nil
+	}
+	et := x.Elem
+	if et == nil {
+		et = y.Elem
+	}
+	if et == nil {
+		return nil
+	}
+	capN := x.Cap
+	if x.Obj == 0 {
+		capN = 0
+	}
+	if y.Obj != 0 && y.Cap > capN {
+		capN = y.Cap
+	}
+	if capN == 0 {
+		return &SliceV{Len: e.S.Int(0), Elem: et}
+	}
+	elemOf := func(st *State, sl *SliceV, i int) Val {
+		if sl.Obj == 0 || i >= sl.Cap {
+			return e.zeroVal(et)
+		}
+		ag, ok := st.Mem[sl.Obj].(*Agg)
+		if !ok {
+			return nil
+		}
+		v := e.aggElem(ag, i)
+		if v == nil {
+			v = e.zeroVal(et)
+		}
+		return v
+	}
+	elems := make([]Val, capN)
+	for i := 0; i < capN; i++ {
+		va, vb := elemOf(e.mergeA, x, i), elemOf(e.mergeB, y, i)
+		if va == nil || vb == nil {
+			return nil
+		}
+		elems[i] = e.mergeVal(c, va, vb)
+	}
+	at := types.NewArray(et, int64(capN))
+	e.nextObj++
+	id := e.nextObj
+	e.objType[id] = at
+	e.mergeN.Mem[id] = &Agg{Typ: at, Elems: elems}
+	lx, ly := x.Len, y.Len
+	if x.Obj == 0 {
+		lx = e.S.Int(0)
+	}
+	if y.Obj == 0 {
+		ly = e.S.Int(0)
+	}
+	return &SliceV{Obj: id, Len: e.S.Ite(c, lx, ly), Cap: capN, Elem: et}
+}
+
+
+// canonStrIte merges conditional concrete strings into the canonical chain form (nil: not applicable).
+func (e *Exec) canonStrIte(c *Term, a, b Val) Val {
+	type alt struct {
+		text string
+		cond *Term
+	}
+	s := e.S
+	leaves := func(v Val) ([]alt, bool) {
+		var out []alt
+		rest := s.True
+		for {
+			switch x := v.(type) {
+			case *StrV:
+				if x.Sym != nil || x.Segs != nil {
+					return nil, false
+				}
+				return append(out, alt{x.Conc, rest}), true
+			case *StrIte:
+				if !x.Canon {
+					return nil, false
+				}
+				t, ok := x.A.(*StrV)
+				if !ok || t.Sym != nil || t.Segs != nil {
+					return nil, false
+				}
+				out = append(out, alt{t.Conc, x.C})
+				rest = s.And(rest, s.Not(x.C))
+				v = x.B
+			default:
+				return nil, false
+			}
+		}
+	}
+	la, ok1 := leaves(a)
+	lb, ok2 := leaves(b)
+	if !ok1 || !ok2 {
+		return nil
+	}
+	conds := map[string]*Term{}
+	var texts []string
+	add := func(l []alt, side *Term) {
+		for _, x := range l {
+			t := s.And(side, x.cond)
+			if old, ok := conds[x.text]; ok {
+				conds[x.text] = s.Or(old, t)
+			} else {
+				conds[x.text] = t
+				texts = append(texts, x.text)
+			}
+		}
+	}
+	add(la, c)
+	add(lb, s.Not(c))
+	sort.Strings(texts)
+	var keep []string
+	for _, t := range texts {
+		if !conds[t].IsFalse() {
+			keep = append(keep, t)
+		}
+	}
+	if len(keep) == 0 {
+		return nil
+	}
+	var res Val = &StrV{Conc: keep[len(keep)-1]}
+	for i := len(keep) - 2; i >= 0; i-- {
+		res = &StrIte{C: conds[keep[i]], A: &StrV{Conc: keep[i]}, B: res, Canon: true}
+	}
+	return res
 }
